@@ -32,6 +32,7 @@ Why(rec, state) ==
 Expected(rec, state) ==
   [ rec  |-> l,
     kind |-> Kind(rec.ts),
+    tT   |-> [k \in 1..rec.T |-> TimeTerm(Ser(rec), k - 1, rec.dt[1], rec.dt[2])],
     corr |-> [k \in 1..rec.T |-> Div(Q(state.acc[k], state.counts[k]), Q(state.acc[1], state.counts[1]))] ]
 
 Init == /\ l = 1 /\ bad = ""
